@@ -62,6 +62,18 @@ func runC07(c *Ctx) {
 			c.ArgIs(s.Fn, "proposer selected for the requested previous block", []ssaInstr{s.In}, 1, 3, "previousBlock")
 		}
 	}
+	// whoever is asked for the proposal is a member of the canonical node list: the only node of a
+	// one-node suffrage, or the selected proposer
+	pf := c.WhoCalls("(*isaac.BaseProposalSelector).proposalFromNode")
+	if c.Floor(nil, "calls of proposalFromNode", len(pf), 2) {
+		for _, s := range pf {
+			c.ArgIs(s.Fn, "proposal requested from a suffrage member (sole member or selected proposer)", []ssaInstr{s.In}, 1, 2,
+				"p.getNodes(point.Height(), p.args.GetNodesFunc)#0[0]", "call(p.args.ProposerSelectFunc)(ctx, point, *, previousBlock)#0")
+			if P("p.getNodes(point.Height(), p.args.GetNodesFunc)#0[0]").Match(c.D(CallArg(s.In, 2))) {
+				c.MP(s.Fn, "sole member used only for a one-node suffrage", []ssaInstr{s.In}, 1, GCmp("len(p.getNodes(point.Height(), p.args.GetNodesFunc)#0)", "<", "2"))
+			}
+		}
+	}
 	if fn := c.Need("isaac.(*BaseProposalSelector).filterDeadNodes"); fn != nil {
 		c.Exists(fn, "dead-node filter is util.Filter2Slices over the given list", c.ReturnsD(fn, 0, "util.Filter2Slices(n, b, func:isaac.(*BaseProposalSelector).filterDeadNodes$1)"), 1)
 	}
